@@ -195,6 +195,9 @@ func TestVerifC17(t *testing.T) {
 		return c17Run(sc, alphabet, trace).Violations
 	}
 	if w.ReplayV != nil {
+		if w.ReplayV.Scenario != scenario {
+			return
+		}
 		vs := w.Replayer(w.ReplayV.Scenario, w.ReplayV.Trace)
 		for _, v := range vs {
 			t.Logf("REPLAY %s %s: %s", v.Property, v.Signature, v.Detail)
